@@ -154,6 +154,13 @@ func newHist(t *testing.T, rng *rand.Rand, rec *sim.Rec, k Knobs) *hist {
 	}
 	h.w = w
 	h.m = sim.NewModel(w)
+	if rng.Intn(4) == 0 {
+		// the operator's deletion callbacks are slow (a yield storm, they run under the library's
+		// locks): entries that expire at the same instant are removed by goroutines that interleave
+		w.SetEventDelay("chan-", time.Second)
+		w.SetEventDelay("perm-", time.Second)
+		rec.Ev("slow-deletion-callbacks")
+	}
 	users := []string{"alice", "bob", "carol"}
 	nc := between(rng, k.Clients)
 	for i := 0; i < nc; i++ {
@@ -425,6 +432,16 @@ func (h *hist) opChanBind() {
 	if resp != nil && resp.Class == wire.ClassSuccess {
 		h.usedNums[c] = append(h.usedNums[c], num)
 	}
+	if h.rng.Intn(3) == 0 {
+		// a second binding made at the same instant: the two expire together
+		num2, p2 := h.chanNumber(c), h.peerForFamily(c)
+		if num2 != num && p2 != p {
+			if r := h.m.ChannelBind(c, num2, p2.Addr); r != nil && r.Class == wire.ClassSuccess {
+				h.usedNums[c] = append(h.usedNums[c], num2)
+			}
+			h.rec.FP("chan/two-at-the-same-instant")
+		}
+	}
 }
 
 // relaysToProbe returns relay addresses: live ones, dead ones and a never-used one.
@@ -628,6 +645,48 @@ func (h *hist) opProbeExpiry() {
 	h.rec.FP("probe-expiry/%s", e.what)
 }
 
+// opTwinExpiry binds two or three channels (and with them their permissions) at one instant and
+// looks at the allocation just after they have expired together.
+func (h *hist) opTwinExpiry() {
+	c := h.withAlloc()
+	if a, st := h.m.Alloc(c); a == nil || st != sim.Live || c.Closed {
+		return
+	}
+	t0 := time.Now()
+	want, bound := 2+h.rng.Intn(2), 0
+	seen := map[string]bool{}
+	for i := 0; i < 12 && bound < want; i++ {
+		num, p := uint16(0x4000+h.rng.Intn(16)), h.peerForFamily(c)
+		if seen[p.Addr.String()] {
+			continue
+		}
+		seen[p.Addr.String()] = true
+		if r := h.m.ChannelBind(c, num, p.Addr); r != nil && r.Class == wire.ClassSuccess {
+			h.usedNums[c] = append(h.usedNums[c], num)
+			bound++
+		}
+	}
+	if bound < 2 || time.Since(t0) != 0 {
+		return
+	}
+	horizons := []time.Duration{h.m.PermTO, h.m.ChanTO}
+	if horizons[0] > horizons[1] {
+		horizons[0], horizons[1] = horizons[1], horizons[0]
+	}
+	for _, d := range horizons {
+		if a, st := h.m.Alloc(c); a == nil || st != sim.Live {
+			return
+		}
+		if w := time.Until(t0.Add(d + time.Second)); w > 0 {
+			h.w.Sleep(w)
+		}
+		h.m.Audit(nil)
+		h.m.CrossCheck()
+		h.probeClient(c)
+	}
+	h.rec.FP("twin-expiry/bound=%d", bound)
+}
+
 func (h *hist) opTime() {
 	// now and then the operator's permission handler changes its mind about a peer host: what was
 	// granted stays until it expires, but nothing for that host is installed or refreshed any more
@@ -790,6 +849,8 @@ func (h *hist) run() {
 			}
 		case "time":
 			h.opTime()
+		case "twins":
+			h.opTwinExpiry()
 		case "closetcp":
 			if h.rng.Intn(3) == 0 {
 				h.opTCPGarbage()
@@ -902,6 +963,6 @@ func init() {
 	register("C07", histProp(map[string]int{"quick": 1200, "thorough": 80000}, Knobs{
 		Clients: [2]int{1, 2}, Peers: [2]int{2, 5}, Steps: [2]int{15, 35}, V6: 15,
 		TimeoutSets: [][3]time.Duration{{0, 0, 4 * time.Hour}, {30 * time.Second, 2 * time.Minute, 4 * time.Hour}, {2 * time.Minute, 30 * time.Second, 4 * time.Hour}, {7 * time.Minute, 20 * time.Minute, 4 * time.Hour}, {20 * time.Minute, 7 * time.Minute, 4 * time.Hour}, {40 * time.Second, 0, 4 * time.Hour}, {0, 45 * time.Second, 4 * time.Hour}},
-		Lifetimes:   []int64{-1, 3599}, W: weights(map[string]int{"allocate": 1, "refresh": 2, "refresh0": 0, "perm": 8, "chan": 8, "probe": 12, "data": 3, "time": 2}),
+		Lifetimes:   []int64{-1, 3599}, W: weights(map[string]int{"allocate": 1, "refresh": 2, "refresh0": 0, "perm": 8, "chan": 8, "probe": 12, "data": 3, "time": 2, "twins": 2}),
 	}))
 }
